@@ -7,12 +7,12 @@ from common import *
 from hdrcheck import line_findings, U
 
 BOUNDARY = b"BOUNDARY-msgfull-0001"
-TOP = ["From", "To", "Subject", "Message-ID", "In-Reply-To", "References", "User-Agent", "Comments", "X-Custom", "Date", "MIME-Version", "Content-Type"]
+TOP = ["From", "Sender", "To", "Subject", "Message-ID", "In-Reply-To", "References", "User-Agent", "Comments", "X-Custom", "Date", "MIME-Version", "Content-Type"]
 
 TEXTS = ["plain", "", " ", "two  spaces ", "é", "naïve café  ☕", "a\r\nBcc: evil@x.example", "x\r\n\r\nbody", "a\nb", "a\rb", "tab\there", "=?utf-8?b?QQ==?=", "=?", "a=?b?=c",
          "w" * 70, "w" * 80, "é" * 40, "😀" * 25, "a " * 50, "x" * 60 + " " + "é" * 10, "\0", "a\x07b", "colon: inside", "<angle@brackets>", '"quoted" \\ back', "(comment)", "semi;colon=1",
          "long " + "word " * 40 + "end", "trailing   ", "   leading"]
-NAMES = ["Kayo", "Doe, John", "é", "a  b", 'q"x', "back\\slash", " pad ", "", "a\tb", "<x>", "a@b", "=?utf-8?b?QQ==?=", "x" * 90, "very long name " * 8, "😀" * 30, "(c)", "semi;colon"]
+NAMES = ["Kayo", "Doe, John", "é", "Dr. Müller", "Müller, Jörg", "é (x) & ü", 'q"é', "ü@ö", "名前.", "a  b", 'q"x', "back\\slash", " pad ", "", "a\tb", "<x>", "a@b", "=?utf-8?b?QQ==?=", "x" * 90, "very long name " * 8, "😀" * 30, "(c)", "semi;colon"]
 FILES = ["a.txt", "fïle name.txt", "x" * 50 + ".bin", "é" * 30, 'q"uote.txt', "back\\slash", "semi;colon.txt", "per%cent", "a\r\nb", "tab\there.txt", "", " ", "'apos'", "star*.txt", "😀.png", "a b" * 30]
 CIDS = ["cid@x", "é@x", "a b", "x" * 100, "a\r\nX-Evil: 1", "<nested>", ""]
 
@@ -54,11 +54,12 @@ def run_cases(ctx, cs):
     ml = []
     for (subj, mid, extra, dname, fname, cid) in cs:
         ml.append("hdr.mailboxes\t%s\t%s,%s" % (hx(b"From"), hx(U(dname)), hx(b"a@x.example")))
+        ml.append("hdr.mailboxes\t%s\t%s,%s" % (hx(b"Sender"), hx(U(dname)), hx(b"s@x.example")))
         for n, v in (("Subject", subj), ("Message-ID", mid), ("In-Reply-To", extra), ("References", extra), ("User-Agent", extra), ("Comments", extra), ("X-Custom", extra), ("Content-ID", "<%s>" % cid)):
             ml.append("hdr.value\t%s\t%s" % (hx(U(n)), hx(U(v))))
         ml.append("hdr.cdisp\t%s\t%s" % (hx(b"attachment"), hx(U(fname))))
     mo = run_model(ml)
-    per = 10
+    per = 11
     recs = []
     for k, c in enumerate(cs):
         m = [unhx(x) if len(x) > 8 and x not in ("err", "panic") else None for x in mo[k * per:(k + 1) * per]]
@@ -76,11 +77,11 @@ def run_cases(ctx, cs):
                 h, _, b2 = sg.partition(b"\r\n\r\n")
                 r["parts"].append((split_fields(h), b2))
             r["closed"] = segs[-1].startswith(b"--")
-        r["expect_top"] = [m[0], b"To: b@y.example\r\n", m[1], m[2], m[3], m[4], m[5], m[6], m[7], b"Date: Tue, 14 Nov 2023 22:13:20 +0000\r\n", b"MIME-Version: 1.0\r\n",
+        r["expect_top"] = [m[0], m[1], b"To: b@y.example\r\n", m[2], m[3], m[4], m[5], m[6], m[7], m[8], b"Date: Tue, 14 Nov 2023 22:13:20 +0000\r\n", b"MIME-Version: 1.0\r\n",
                            b"Content-Type: multipart/mixed; boundary=\"" + BOUNDARY + b"\"\r\n"]
         r["expect_parts"] = [[b"Content-Type: text/plain; charset=utf-8\r\n", b"Content-Transfer-Encoding: 7bit\r\n"],
-                             [m[9], b"Content-Type: application/octet-stream\r\n", b"Content-Transfer-Encoding: 7bit\r\n"],
-                             [m[8], b"Content-Disposition: inline\r\n", b"Content-Type: image/png\r\n", b"Content-Transfer-Encoding: 7bit\r\n"]]
+                             [m[10], b"Content-Type: application/octet-stream\r\n", b"Content-Transfer-Encoding: 7bit\r\n"],
+                             [m[9], b"Content-Disposition: inline\r\n", b"Content-Type: image/png\r\n", b"Content-Transfer-Encoding: 7bit\r\n"]]
         recs.append(r)
     return recs
 
@@ -109,7 +110,7 @@ def judge_c02(ctx, recs, known, hits):
             bad.append((r, "the multipart body does not hold the three parts that were added"))
         for raw in r["top"] + [x for p in r["parts"] for x in p[0]]:
             nm = raw.split(b":")[0].decode("latin-1")
-            for cl, det in line_findings(nm, raw, addr_header=(nm in ("From", "To"))):
+            for cl, det in line_findings(nm, raw, addr_header=(nm in ("From", "Sender", "To"))):
                 if cl and cl in known:
                     hits[cl] = hits.get(cl, 0) + 1
                 else:
@@ -138,8 +139,9 @@ def judge_c12(ctx, recs):
         p2 = {f.split(b":")[0]: f for f in r["parts"][1][0]}
         if b"Content-Disposition" in p2:
             ql.append("spec.decode_disposition\t" + hx(p2[b"Content-Disposition"][len(b"Content-Disposition: "):-2])); qi.append((k, "file name", U(fname), "d"))
-        if b"From" in top:
-            ql.append("spec.unfold\t" + hx(top[b"From"][len(b"From: "):-2])); qi.append((k, "From", U(dname), "f"))
+        for hn, ad in ((b"From", b"a@x.example"), (b"Sender", b"s@x.example")):
+            if hn in top:
+                ql.append("spec.unfold\t" + hx(top[hn][len(hn) + 2:-2])); qi.append((k, hn.decode(), U(dname), ("f", ad)))
     res = run_model(ql)
     ph, phi = [], []
     for (k, what, want, kind), o in zip(qi, res):
@@ -152,13 +154,14 @@ def judge_c12(ctx, recs):
                 bad.append((r, "file name: the RFC 2231 reader recovers %s, not %r" % (o[:120], want[:80])))
         else:
             ub = unhx(o)
-            if want.strip() == b"" and ub == b"a@x.example":
+            ad = kind[1]
+            if want.strip() == b"" and ub == ad:
                 continue                      # an empty / blank name is no name
-            if not ub.endswith(b" <a@x.example>"):
-                bad.append((r, "From: address part not intact: %r" % ub[-40:])); continue
-            ph.append("spec.decode_phrase\t" + hx(ub[:-len(b" <a@x.example>")])); phi.append((k, want))
-    for (k, want), o in zip(phi, run_model(ph)):
+            if not ub.endswith(b" <" + ad + b">"):
+                bad.append((r, "%s: address part not intact: %r" % (what, ub[-40:]))); continue
+            ph.append("spec.decode_phrase\t" + hx(ub[:-len(b" <" + ad + b">")])); phi.append((k, want, what))
+    for (k, want, what), o in zip(phi, run_model(ph)):
         got = unhx(o.split("\t")[1]) if o.startswith("some") else None
         if got != want:
-            bad.append((recs[k], "display name: a conforming reader recovers %r, not %r" % (got, want)))
+            bad.append((recs[k], "%s display name: a conforming reader recovers %r, not %r" % (what, got, want)))
     return bad
